@@ -2,6 +2,7 @@
 and an Earley recogniser over token types.  Transcribed from src/pyab_experiment/language/README.rst
 ("Formal Grammar" + "Language Components" prose); nothing is imported from the repo."""
 import re
+import unicodedata
 
 # --------------------------------------------------------------------------- grammar (token types as in model.py)
 OPS = ["EQ", "NE", "GT", "LT", "GE", "LE", "IN", "NOT_IN"]
@@ -159,6 +160,10 @@ def lex(text, split_keywords=False, eof_closes_comment=False):
                 i += len(p)
                 break
         else:
+            if not c.isascii() and unicodedata.category(c) == "Nd":
+                # the documentation shows numbers only by example (42, 3.14): whether a non-ASCII decimal digit (fullwidth,
+                # Arabic-Indic ...) is a digit of the language is not stated, and the implementation's \d accepts it
+                raise Ambiguous("non-ASCII decimal digit %r" % c)
             raise Illegal("illegal character %r at %d" % (c, i))
     return toks
 
